@@ -29,6 +29,15 @@ Definition normalize_parameters (params : list pair_s) : string :=
   join "&" (map (fun kv => fst kv ++ "=" ++ snd kv)
                 (sort_pairs (map (fun kv => (escape (fst kv), escape (snd kv))) params))).
 
+(* RFC 5849 section 3.4.1.2: the port is dropped when, and only when, it is the scheme's default; nothing else of the authority changes *)
+Definition base_netloc (scheme netloc : string) : string :=
+  match split_first ":" netloc with
+  | (h, Some port) =>
+      if (String.eqb scheme "http" && String.eqb port "80") || (String.eqb scheme "https" && String.eqb port "443")
+      then h else netloc
+  | (_, None) => netloc
+  end.
+
 (* normalize_base_string_uri(uri, host): None = ValueError *)
 Definition normalize_base_string_uri (uri : string) (host : option string) : option string :=
   let p := urlparse uri in
@@ -36,13 +45,7 @@ Definition normalize_base_string_uri (uri : string) (host : option string) : opt
   let path := if String.eqb (u_path p) "" then "/" else u_path p in
   let scheme := lower (u_scheme p) in
   let netloc := match host with Some h => lower h | None => lower (u_netloc p) end in
-  let netloc :=
-    match split_first ":" netloc with
-    | (h, Some port) =>
-        if (String.eqb scheme "http" && String.eqb port "80") || (String.eqb scheme "https" && String.eqb port "443")
-        then h else netloc
-    | (_, None) => netloc
-    end in
+  let netloc := base_netloc scheme netloc in
   Some (urlunparse {| u_scheme := scheme; u_netloc := netloc; u_path := path; u_params := u_params p;
                       u_query := ""; u_fragment := "" |}).
 
